@@ -281,7 +281,7 @@ CHECKS = {
         "observed at the libc boundary (virtual-time advance inside read/write, O_NONBLOCK flag of the descriptor); "
         "non-trivial = an I/O call or an input start was checked",
         {"nb_calls": 1500, "blocking_calls": 500, "blocking_waits": 50, "input_starts": 100,
-         "input_failed_starts": 20, "nonblock_flag_seen": 1000}, assumptions=KERNEL_TRUST),
+         "input_failed_starts": 20}, assumptions=KERNEL_TRUST),
     "C04": scen_check(
         "eng_fault", "fault_enumeration",
         "phase 1 traces a fault-free start of each of 16 option scenarios and reads off every libc call site (side, function, "
